@@ -244,3 +244,23 @@ def only_reached_from(repo, qualname, allowed, depth=4):
     if not cs:
         return False
     return all(only_reached_from(repo, c, allowed, depth - 1) for c in cs)
+
+
+class Guard:
+    """runs the rules of a property one after the other; a rule that cannot decide (AnalysisError) does not keep the remaining
+    rules from reporting what they find - the first such error is raised once all rules have run (exit 2 unless a violation was
+    reported, see __main__)"""
+
+    def __init__(self):
+        self.pending = None
+
+    def __call__(self, fn, *args, **kwargs):
+        try:
+            return fn(*args, **kwargs)
+        except AnalysisError as e:
+            self.pending = self.pending or e
+            return None
+
+    def done(self):
+        if self.pending is not None:
+            raise self.pending
